@@ -64,7 +64,19 @@ def _eligible(x, vals):
         return False
     if abs(_total(vals)) > 10**9 * US:
         return False
-    return k[0] == "naive" or judge.valid_local(x)
+    return k[0] == "naive" or judge.valid_local(x) or getattr(x, "_pvmon_rawgap", False) is True or _in_gap(x)
+
+
+def _in_gap(x):
+    """x carries a pendulum zone and wall fields that the zone skips (a value only the class constructor produces):
+    it denotes wall - utcoffset(fold); the result of any fixed-length shift must still be a proper rendering"""
+    k = judge.zkind(x)
+    if k[0] != "iana":
+        return False
+    try:
+        return tzdb.Z.get(k[1]).classify_wall(wall_us(x))[0] == "gap"
+    except Exception:  # noqa: BLE001
+        return False
 
 
 def judge_shift(M, name, x, ret, total, sigp):
@@ -187,6 +199,15 @@ def cases(M):
                         continue
                     yield {"z": zn, "u": u, "tot": tot, "via": r.choice(vias), "ti": i, "pk": pk, "ak": ak,
                            "sp": r.randrange(1 << 30)}
+    # starts built by the class constructor on a wall time inside a gap (either fold), shifted by zero and by small amounts
+    for zn in zones[: (len(zones) if thorough else 10)]:
+        z = tzdb.Z.get(zn)
+        gaps = [(i, t, ob, oa) for i, (t, ob, oa, _) in enumerate(z.trans) if oa > ob and gen.ok_instant(t * US)]
+        for i, t, ob, oa in gaps[-(8 if thorough else 3):]:
+            for f_ in (0, 1):
+                for tot in (0, 0, 1, -1, 1800 * US, -(oa - ob) * US, r.randrange(-10**5, 10**5) * US):
+                    yield {"z": zn, "rawgap": (t + ob) * US + r.randrange((oa - ob) * US), "fold": f_, "u": t * US, "tot": tot, "via": r.choice(vias),
+                           "ti": i, "pk": "raw-gap-start", "ak": "zero" if tot == 0 else "small", "sp": r.randrange(1 << 30)}
     # naive, fixed-offset and random starts
     nextra = (60000 if thorough else 6000)
     names = gen.all_zones()
@@ -222,6 +243,8 @@ def _start(M, c):
     from pvmon.common import us_to_fields
 
     z = c["z"]
+    if "rawgap" in c:
+        return P.DateTime(*us_to_fields(c["rawgap"]), tzinfo=P.timezone(z), fold=c["fold"])
     if z is None:
         return P.DateTime(*us_to_fields(c["u"]))
     if isinstance(z, int):
@@ -234,7 +257,9 @@ def run(M, c):
 
     x = _start(M, c)
     tot, via = c["tot"], c["via"]
-    if isinstance(c["z"], str) and gen.crosses(c["z"], c["u"], c["u"] + tot):
+    if "rawgap" in c:
+        M.cls("rawgap", c["z"], c["ti"], c["fold"], tot == 0, via)
+    elif isinstance(c["z"], str) and gen.crosses(c["z"], c["u"], c["u"] + tot):
         M.cls(c["z"], c["ti"], c["pk"], c["ak"], via)
     elif c["z"] is None or isinstance(c["z"], int):
         M.cls("plain", c["pk"], via, tot % 7)
@@ -282,5 +307,8 @@ def run(M, c):
     # inverse: back to the original instant and offset
     ok = type(back) is type(x) and (wall_us(back), off_us(back), back.tzinfo is None) == (
         wall_us(x), off_us(x), x.tzinfo is None)
+    if "rawgap" in c:
+        # the start's own fields do not exist in its zone: "back to the original instant" is all that can be asked
+        ok = type(back) is type(x) and inst(back) == inst(x)
     M.check("inverse", ok, "C03/inverse", "subtract() does not undo add()", start=judge.desc(x), amount_us=tot,
             mid=judge.desc(y), back=judge.desc(back))
